@@ -483,13 +483,30 @@ class Model:
         out_ty, valz = self.type_of_value(it, val)
         member = itd.member
 
+        # [k for k, v in d.items() if c(k, v)]: the element is the key of an items() pair, so
+        #   y in result  <=>  y is a key of d and c(y, d[y])      (quantifier-free, exact; keys are unique)
+        key_of_items = None
+        org = getattr(itd, "origin", None)
+        if org is not None and org[0] == "items" and isinstance(itd.elem_ty, TTuple):
+            if z3.simplify(valz).eq(z3.simplify(itd.elem_ty.proj(0, x))):
+                dref, dcont = org[1], org[2]
+                os_ = option_sort(dref.ty.v.sort())
+                key_of_items = (dcont, os_, itd.elem_ty)
+
         def mem(y, x=x, condz=condz, valz=valz, member=member):
+            if key_of_items is not None:
+                dcont, os_, tt = key_of_items
+                ent = z3.Select(dcont, y)
+                pair = tt.mk(y, os_.get(ent))
+                return z3.And(os_.is_some(ent), z3.substitute(condz, (x, pair)))
             body = z3.And(member(x), condz, y == valz)
             if z3.is_const(valz) and valz.eq(x):
                 return z3.substitute(z3.And(member(x), condz), (x, y))
             return z3.Exists([x], body)
         ident = z3.is_const(valz) and valz.eq(x)
-        if ident:
+        if key_of_items is not None:
+            distinct = True
+        elif ident:
             distinct = itd.distinct
         elif itd.distinct is True or z3.is_expr(itd.distinct):
             # injectivity of the element map on the (distinct) source: a formula to be proved by whoever
